@@ -46,7 +46,12 @@ def check(run):
                 [x for b_ in walk(rhs) if b_['k'] == 'call' and q.callee_name(b_) in ('std::bind', 'sim::aux::move_bind', 'boost::beast::bind_handler') for x in b_.get('args', []) if q.is_this(x)]
             fwd = [c for x in walk(rhs) if x['k'] == 'lambda' for c in x.get('caps', []) if is_node(c.get('init')) and any(q.field_name(y) == B + '::m_forwarder' for y in walk(c['init']))]
             construct = '%s: p.drop_fun = …' % q.top_function(fx, fn).norm
-            if raw_this:
+            nonown = [c for x in walk(rhs) if x['k'] == 'lambda' for c in handlers.nonowning_captures(fn, x) if c[1] != 'this']
+            if nonown:
+                run.violation('R15', 'packet-callback', construct, fn.loc(a.node),
+                              'the drop callback stored in an in-flight packet captures %s (%s %s) without owning it: the packet can be dropped at a later hop after the sender was closed and destroyed, when nothing keeps the pointee alive (use after free)'
+                              % (nonown[0][0], nonown[0][1], nonown[0][2]))
+            elif raw_this:
                 run.violation('R15', 'packet-callback', construct, fn.loc(a.node),
                               'the drop callback stored in an in-flight packet binds the raw `this` of the sending socket: the packet can be dropped at a later hop after the socket was closed, destroyed or moved (use after free / null channel)')
             elif fwd:
@@ -97,6 +102,10 @@ def check(run):
     # lambdas to timers capturing this
     for fn in p04.core_fns(fx):
         for u, (dest, n, cons) in handlers.lambda_destinations(fx, fn).items():
+            for nm, kind, ty_ in handlers.nonowning_captures(fn, n) if dest in ('post', 'timer', 'slot') or dest.startswith('slot:') else []:
+                if kind != 'this':
+                    run.violation('R15', 'closure-nonowning', '%s: lambda -> %s captures %s' % (q.top_function(fx, fn).norm, dest, nm), fn.loc(n),
+                                  'a closure that runs at a later event captures %s (%s %s) without owning it' % (nm, kind, ty_))
             if dest in ('post', 'timer') and any(c.get('this') for c in n.get('caps', [])):
                 lam = fx.by_usr(u)
                 uses = bool(lam) and any(x['k'] == 'this' or (x['k'] == 'member' and q.is_this(q.access_root(x))) for x in lam[0].all_nodes())
@@ -163,6 +172,8 @@ def check(run):
 
     move_ctor_rules(run, ((T, 'tcp'), (U, 'udp')))
 
+    run.clause('R16 no call made while a scoped guard on a std::mutex is alive reaches a function that locks the same mutex (self-deadlock in run(), its catch-all, add_timer/remove_timer)')
+    engines.r16_no_relock(run)
     run.clause('R4 simulation::run catch-all: cancels from copies of the containers, sets the stop flag and re-throws on every path; remove_timer searches the whole equal-expiry range')
     rn = fx.fn1(S + '::run')
     run.touch(rn)
@@ -181,9 +192,9 @@ def check(run):
     remove_timer_rule(run)
     run.clause('R15 element references / iterators into member containers are not used after the call that invalidates them')
     engines.dangling_element_refs(run, [f for f in fx.repo_functions() if f.file.startswith(simlib.REPO_PREFIX)])
-    run.floor('R15', 10)
-    run.floor('R5', 10)
-    run.floor('R7', 40)
+    run.floor('R15', 7)
+    run.floor('R5', 7)
+    run.floor('R7', 28)
 
 
 def move_ctor_rules(run, classes):
